@@ -1175,10 +1175,67 @@ func (x *Exec) model(a *activation, b *ssa.BasicBlock, i int, in *ssa.Call, call
 		return x.modelSort(a, b, i, in, args, fr, h, p)
 	case "sort.Float64s", "sort.Strings":
 	default:
+		if totalPure(name) {
+			// a total, side-effect free function of the standard library (it returns
+			// for every argument and writes nothing): its result is simply unknown
+			fr.vals[in] = x.unknownOf(in.Type())
+			return false
+		}
 		x.gap("no kind model for "+name, in.Pos())
 		fr.vals[in] = x.opaqueOf(in.Type(), "unmodelled "+name)
 	}
 	return false
+}
+
+// totalPure: standard-library functions that cannot panic for any argument
+// of their types, have no side effect and return fresh or immutable values.
+// Deliberately excluded although pure: strings.Repeat (panics on a negative
+// count), utf8.EncodeRune / AppendRune on a caller's buffer (index panic),
+// strconv.FormatInt/AppendInt (panic on a base outside 2..36; FormatInt is
+// modelled for constant bases), anything taking a slice to write into.
+func totalPure(name string) bool {
+	switch name {
+	case "strconv.FormatBool", "strconv.Itoa", "strconv.QuoteToASCII", "strconv.QuoteRune", "strconv.Unquote", "strconv.ParseBool",
+		"unicode/utf8.RuneLen", "unicode/utf8.RuneCountInString", "unicode/utf8.RuneCount", "unicode/utf8.ValidRune", "unicode/utf8.Valid", "unicode/utf8.RuneError",
+		"unicode.IsUpper", "unicode.IsLower", "unicode.IsLetter", "unicode.IsDigit", "unicode.IsSpace", "unicode.IsPunct", "unicode.IsControl", "unicode.IsNumber", "unicode.IsPrint", "unicode.ToLower", "unicode.ToTitle", "unicode.In",
+		"strings.Index", "strings.IndexByte", "strings.IndexRune", "strings.IndexAny", "strings.LastIndex", "strings.LastIndexByte", "strings.Count", "strings.Compare",
+		"strings.Fields", "strings.Split", "strings.SplitN", "strings.Title", "strings.Trim", "strings.TrimLeft", "strings.TrimRight", "strings.TrimPrefix", "strings.TrimSuffix", "strings.TrimFunc", "strings.ContainsRune", "strings.ContainsAny", "strings.Map", "strings.ToTitle",
+		"math.Max", "math.Min", "math.Mod", "math.Signbit", "math.Copysign", "math.Float64bits", "math.Float64frombits":
+		return true
+	}
+	return false
+}
+
+// unknownOf: any value of type T (for results of total pure library functions).
+func (x *Exec) unknownOf(T types.Type) AV {
+	if T == nil {
+		return AV{}
+	}
+	if tup, ok := T.(*types.Tuple); ok {
+		out := AV{k: 'T'}
+		for i := 0; i < tup.Len(); i++ {
+			out.tup = append(out.tup, x.unknownOf(tup.At(i).Type()))
+		}
+		return out
+	}
+	switch u := T.Underlying().(type) {
+	case *types.Basic:
+		switch {
+		case u.Info()&types.IsBoolean != 0:
+			return AV{k: 'B', tri: 3}
+		case u.Info()&types.IsInteger != 0:
+			return AV{k: 'N'}
+		case u.Info()&types.IsFloat != 0:
+			return AV{k: 'F', fbits: 7}
+		case u.Info()&types.IsString != 0:
+			return AV{k: 'S'}
+		}
+	case *types.Interface:
+		if isErrorType(T) {
+			return AV{k: 'E', tri: 3}
+		}
+	}
+	return x.opaqueOf(T, "result of a pure library function")
 }
 
 // modelSort: sort.Stable(adapter) calls adapter.Less zero or more times.
